@@ -59,7 +59,7 @@ HUBS = ["channels are abstracted to identity + closed flag; the contents of a ch
 KESWARM = f("s/p2pkeswarm", "(*Swarm).getFullAddr$1$1", "(*Swarm).handleMessage$1$1", "(*Swarm).handleMessage", "(*Swarm).getFullAddr")
 QUICGLUE = f("s/quicswarm", "(*Swarm).withSession", "(*Swarm).serve", "(*Swarm).handleAsk", "(*Swarm).handleTells$1")
 DHT = f("p/kademlia", "dhtIterate", "DHTPut$1", "DHTGet$2", "DHTJoin", "DHTPut", "DHTGet", "DHTFindNode")
-IDS = f("", "(*PeerID).UnmarshalText") + f("f/x509", "EqualPublicKeys") + f("s/p2pkeswarm", "DefaultFingerprinter", "ParseAddr") + f("s/quicswarm", "DefaultFingerprinter", "ParseAddr")
+IDS = f("", "(*PeerID).UnmarshalText") + f("f/x509", "EqualPublicKeys") + f("s/p2pkeswarm", "DefaultFingerprinter", "ParseAddr", "New") + f("s/quicswarm", "DefaultFingerprinter", "ParseAddr")
 
 QUEUE = f("s/swarmutil", "zeroMessage", "copyMessage", "(*Queue).Deliver", "(*Queue).DeliverVec", "(*Queue).Receive")
 
